@@ -34,7 +34,10 @@ pub fn run(args: &[String]) {
             };
             // split log into trace/coset parts
             let c = 1 + rng.below(log.min(4));
-            let dom = StarkDomains::new(Felt::from(log - c.min(log)), Felt::from(c.min(log)));
+            let dom = match guarded(|| StarkDomains::new(Felt::from(log - c.min(log)), Felt::from(c.min(log)))) {
+                Ok(d) => d,
+                Err(p) => { t.line(&json!({"ev":"points.panic","where":p})); continue; }
+            };
             let r = guarded(|| queries_to_points(&q, &dom));
             for e in &verif::take() { t.line(&annotate(e)); }
             match r {
